@@ -8,7 +8,7 @@ mkdir -p $T/verif
 if ! (cd $T/repo && patch -p1 -s --no-backup-if-mismatch < "$P" >/dev/null 2>&1); then echo "PATCH DOES NOT APPLY: $P"; rm -rf $T; exit 3; fi
 cp /verif/known-findings.txt $T/verif/ 2>/dev/null
 for prop in "$@"; do
-  out=$(/verif/bin/mqttcheck -property $prop -repo $T/repo -verif $T/verif 2>&1); rc=$?
+  out=$(${MQTTCHECK_BIN:-/verif/bin/mqttcheck} -property $prop -repo $T/repo -verif $T/verif 2>&1); rc=$?
   nv=$(echo "$out" | grep -c '^VIOLATION')
   echo "$prop rc=$rc violations=$nv"
   echo "$out" | grep -E '^  violated:|^INCONCLUSIVE' | sed 's/^/    /' | cut -c1-220
